@@ -964,6 +964,16 @@ def memoDischarged : List String := []
 theorem C04_gen_no_mutable_memo :
     (memoFunctions.all fun m => m.2.2.1 || memoDischarged.contains m.1) = true := by decide +kernel
 
+/-- Caches behind helpers (the hand-written form of a memoisation decorator): a function that returns a run-time written module-level /
+class-level container, or an element of it, hands a process-wide object to its caller. Every such function is either over a container
+into which only syntactically immutable values are ever stored, or is in the reviewed list `handedOutDischarged` (empty). -/
+def handedOutDischarged : List (String × String) := []
+
+theorem C04_gen_no_cached_mutable_handed_out :
+    (handedOut.all fun h =>
+      handedOutDischarged.contains (h.1, h.2.1)
+      || (h.2.2.1 != "container-itself" && (storedValues.filter fun s => s.1 == h.1).all fun s => s.2.2.1)) = true := by decide +kernel
+
 /-- no `global` statement anywhere, and no module logger object is re-bound or mutated by a function -/
 theorem C04_gen_no_global_statements : globalStatements = [] ∧ moduleLoggersWritten = [] := by decide
 
